@@ -123,7 +123,9 @@ Definition agg_step (s : acc) (r : host_result) : acc := (agg_step_core s.1 r, s
 Record stmt := Stmt { st_sort : Z;     (* 1 packets, 2 bytes, 3 time *)
                       st_dir : Z;      (* 1 sum, 2 in, 3 out, 4 both *)
                       st_asc : bool;
-                      st_num : Z }.    (* NumResults, >= 1 after Prepare *)
+                      st_num : Z;      (* NumResults, >= 1 after Prepare *)
+                      st_bin : Z }.    (* TimeBinSize in seconds if the time label is selected and the size is
+                                          not the default 5m (Statement.PostProcess then runs BinTime); else 0 *)
 
 Definition str_ltb (a b : string) : bool := match String.compare a b with Lt => true | _ => false end.
 
@@ -170,23 +172,51 @@ Definition sort_rows (lt : row -> row -> bool) (l : list row) : list row := fold
 Definition zlen {A} (l : list A) : Z := Z.of_nat (length l).
 Definition ztake {A} (n : Z) (l : list A) : list A := take (Z.to_nat n) l.
 
+(* ---------------------------------------------------------------- time binning: TimeBinner.BinTime *)
+Definition LOCAL_ZONE : Z := 1.        (* time.Unix(..) carries time.Local: index 1 of the harness location pool *)
+(* results.BinTimestamp, Go's truncating % *)
+Definition bin_ts (bs ts : Z) : Z :=
+  if bs <=? 0 then ts else let r := Z.rem ts bs in if r =? 0 then ts else ts - r + bs.
+Definition bin_key (bs : Z) (k : key) : key :=
+  let '(i, z, f, h, d, s, t, p, q) := k in
+  if i =? ZERO_T then k else (bin_ts bs i, LOCAL_ZONE, f, h, d, s, t, p, q).      (* !Timestamp.IsZero() *)
+Definition ST_TIME : stmt := Stmt 3 1 true 0 0.                                 (* By(SortTime, DirectionSum, true) *)
+Definition bin_rows (bs : Z) (rows : list row) : list row :=
+  sort_rows (row_less ST_TIME) (map_to_list (merge_map ∅ ((fun r : row => (bin_key bs r.1, r.2)) <$> rows))).
+
+Definition sorted_rows (st : stmt) (m : gmap key counters) : list row :=
+  sort_rows (row_less st) (map_to_list m).
+(* the rows BinTime leaves in res.Rows, if it runs (it then also sets Hits.Total := len(res.Rows)) *)
+Definition binned (st : stmt) (m : gmap key counters) : option (list row) :=
+  if bool_decide (size m = 0%nat) then None
+  else if negb (st_bin st =? 0) && negb (zlen (sorted_rows st m) =? 0)
+       then Some (bin_rows (st_bin st) (sorted_rows st m)) else None.
+
 (* finalizeResult(ctx, res, stmt, rowMap, limitUpperBound) followed by the deferred res.End().
-   stmt.PostProcess is modelled without time binning (TimeBinSize = default; binning is C13).
    Summary.DataAvailable is never assigned by the aggregation, so End() takes the "missing data" branch. *)
-Definition fin_out (st : stmt) (ub : Z) (a : agg) (o : out) : out :=
+Definition present (st : stmt) (ub : Z) (m : gmap key counters) : list row :=
+  let rows := match binned st m with Some b => b | None => sorted_rows st m end in
+  let rows := if negb (st_num st =? 0) && (st_num st <? zlen rows) then ztake (st_num st) rows else rows in
+  let limit := Z.min (st_num st) ub in
+  if limit <? zlen rows then ztake limit rows else rows.
+
+Definition fin_out (st : stmt) (ub : Z) (m : gmap key counters) (o : out) : out :=
   let o1 := Out (o_rows o) (o_displayed o) ST_OK in            (* fix 809d64e: status derived afresh *)
   let o2 :=
-    if bool_decide (size (a_rows a) = 0%nat) then o1
-    else
-      let rows := sort_rows (row_less st) (map_to_list (a_rows a)) in
-      let rows := if negb (st_num st =? 0) && (st_num st <? zlen rows) then ztake (st_num st) rows else rows in
-      let limit := Z.min (st_num st) ub in
-      let rows := if limit <? zlen rows then ztake limit rows else rows in
-      Out rows (zlen rows) (o_status o1) in
+    if bool_decide (size m = 0%nat) then o1
+    else let rows := present st ub m in Out rows (zlen rows) (o_status o1) in
   (* End() *)
   Out (o_rows o2) (zlen (o_rows o2)) (if negb (zlen (o_rows o2) =? 0) then o_status o2 else ST_MISSING).
 
-Definition finalize (st : stmt) (ub : Z) (s : acc) : acc := (s.1, fin_out st ub s.1 s.2).
+(* Summary.Hits.Total after finalizeResult: overwritten by BinTime when it runs *)
+Definition fin_hits (st : stmt) (m : gmap key counters) (h : Z) : Z :=
+  match binned st m with Some b => zlen b | None => h end.
+
+Definition with_hits (a : agg) (h : Z) : agg :=
+  Agg (a_rows a) (a_statuses a) (a_ifaces a) (a_query a) (a_first a) (a_last a) (a_totals a) (a_stats a) h.
+
+Definition finalize (st : stmt) (ub : Z) (s : acc) : acc :=
+  (with_hits s.1 (fin_hits st (a_rows s.1) (a_hits s.1)), fin_out st ub (a_rows s.1) s.2).
 
 Definition MAX_STREAM : Z := 100.     (* maxLimitStreaming *)
 
@@ -198,8 +228,9 @@ Definition stream_step (st : stmt) (s : acc) (r : host_result) : acc :=
   end.
 
 (* aggregateResults: Run (send = nil) and RunStreaming; the deferred finalizeResult uses stmt.NumResults *)
+Definition aggregate (rs : list host_result) : acc := fold_left agg_step rs acc0.
 Definition run_batch (st : stmt) (rs : list host_result) : acc :=
-  finalize st (st_num st) (fold_left agg_step rs acc0).
+  finalize st (st_num st) (aggregate rs).
 Definition run_stream (st : stmt) (rs : list host_result) : acc :=
   finalize st (st_num st) (fold_left (stream_step st) rs acc0).
 (* the partial results handed to the SSE sender, oldest first *)
